@@ -3,8 +3,8 @@ import TongoModel.Tlb.Enc
 import TongoModel.Tlb.Dec
 import TongoModel.Tlb.TyText
 /-! Line handlers of the TL-B codec model (properties C03, C04):
-  tlb.enc <ty> <env> <val>     → ok <canonical table> | err | panic
-  tlb.dec <ty> <env> <table>   → ok <val> | err | panic -/
+  tlb.enc <GoType> <ty> <env> <val>     → ok <canonical table> | err | panic
+  tlb.dec <GoType> <ty> <env> <table>   → ok <val> | err | panic -/
 namespace Driver
 open Tongo Tongo.Tlb
 
@@ -17,13 +17,13 @@ def outcomeStr {α} (f : α → String) : Outcome α → String
 
 def opsTlb : List (String × Handler) := [
   ("tlb.enc", fun
-    | [ty, env, val] =>
+    | [_, ty, env, val] =>
       match TyText.parseTy ty, TyText.parseEnv env, SExp.parse val with
       | some t, some e, some v => outcomeStr (fun b => SExp.cellToString b.toCell) (encode e tlbFuel t v Builder.empty)
       | _, _, _ => "bad-op"
     | _ => "bad-op"),
   ("tlb.dec", fun
-    | [ty, env, tbl] =>
+    | [_, ty, env, tbl] =>
       match TyText.parseTy ty, TyText.parseEnv env, SExp.cellOfString tbl with
       | some t, some e, some c => outcomeStr (fun r => SExp.toString r.1) (decode e tlbFuel t (Slice.ofCell c))
       | _, _, _ => "bad-op"
